@@ -197,13 +197,19 @@ def is_week_lattice(ticks):
             and all((ticks[i + 1] - ticks[i]) == dtm.timedelta(days=7) for i in range(len(ticks) - 1)))
 
 
-def check_time(run, t0, t1, m):
+def check_time(run, t0, t1, m, prior=()):
+    """prior: tick counts the SAME scale instance was asked for (ticks(p), read-only) before nice(m): the outcome of nice
+    must not depend on what the scale was asked before (history part of the scope)"""
     inp = {"kind": "time", "domain": [t0, t1], "m": m}
+    if prior:
+        inp["prior_ticks_calls"] = list(prior)
 
     def do():
         s = TimeScale().domain([t0, t1])
         ticks = s.ticks() if m is None else s.ticks(m)
         s2 = TimeScale().domain([t0, t1])
+        for p in prior:
+            s2.ticks() if p is None else s2.ticks(p)
         res = (s2.nice() if m is None else s2.nice(m)).domain()
         return list(ticks), list(res)
 
@@ -273,9 +279,12 @@ def check_time(run, t0, t1, m):
     return (n0, n1) != (t0, t1)
 
 
-def one_time(run, t0, t1, m):
-    moved = check_time(run, t0, t1, m)
-    run.case(("T", t0.isoformat(), t1.isoformat(), m), nontrivial=bool(moved))
+def one_time(run, t0, t1, m, prior=()):
+    moved = check_time(run, t0, t1, m, prior)
+    run.case(("T", t0.isoformat(), t1.isoformat(), m, tuple(prior)), nontrivial=bool(moved))
+
+
+HIST_COUNTS = [((None,), 100), ((100,), None), ((2,), 50), ((50,), 2), ((None, 3), 40)]
 
 
 ANCHORS_QUICK = [
@@ -381,6 +390,18 @@ def body(run):
     if complete:
         run.exhaustive("time: %d anchors x %d spans x forward/backward placement x both orientations x %d counts = %d cases"
                        % (len(anchors), len(SPANS_MS), len(M_TIME), ncase))
+    # histories: the same scale instance is asked for ticks with OTHER counts before nice(m)
+    nh = 0
+    for t in anchors[::2]:
+        t = t + dtm.timedelta(minutes=47)
+        for sp in SPANS_MS[3::3]:
+            x0, x1 = t, t + dtm.timedelta(milliseconds=sp) - dtm.timedelta(minutes=5)
+            if x1 <= x0 or not time_in_quantifier(x0, x1):
+                continue
+            for prior, m in HIST_COUNTS:
+                one_time(run, x0, x1, m, prior)
+                nh += 1
+    run.exhaustive("time histories: %d cases (ticks(p) on the same instance before nice(m), 5 count patterns)" % nh)
     while run.left() > 0:
         for _ in range(50):
             a, b = c13.rand_domain(run.rng)
@@ -394,7 +415,7 @@ def body(run):
 def replay(run, inp):
     if inp.get("kind") == "time":
         t0, t1 = inp["domain"]
-        one_time(run, t0, t1, inp["m"])
+        one_time(run, t0, t1, inp["m"], tuple(inp.get("prior_ticks_calls", ())))
     else:
         a, b = inp["domain"]
         one_linear(run, float(a), float(b), inp["m"])
